@@ -38,18 +38,30 @@ Definition gen_visit (r : orule) (now n : Z) (c : acc) (a : Z) : acc :=
                 (bstate_code (st (snd tp))) (fst tp)))
   end.
 
+(* proof style: one case per comparison of either side, comparisons turned into (in)equalities,
+   equal branches by reflexivity (the recorded appends are applied by computation), contradictory
+   ones by lia - so that a rewrite of the Go conditions that keeps their meaning still checks *)
+Ltac split_ifs :=
+  repeat match goal with |- context [if ?c then _ else _] => destruct c eqn:? end.
+Ltac bool_facts :=
+  repeat match goal with
+  | H : negb _ = true |- _ => apply negb_true_iff in H
+  | H : negb _ = false |- _ => apply negb_false_iff in H
+  | H : andb _ _ = true |- _ => apply andb_true_iff in H; destruct H
+  | H : orb _ _ = false |- _ => apply orb_false_iff in H; destruct H
+  | H : (_ <? _) = true |- _ => apply Z.ltb_lt in H
+  | H : (_ <? _) = false |- _ => apply Z.ltb_ge in H
+  | H : (_ <=? _) = true |- _ => apply Z.leb_le in H
+  | H : (_ <=? _) = false |- _ => apply Z.leb_gt in H
+  | H : (_ =? _) = true |- _ => apply Z.eqb_eq in H
+  | H : (_ =? _) = false |- _ => apply Z.eqb_neq in H
+  end.
+Ltac leaf_cases := split_ifs; bool_facts; first [reflexivity | exfalso; lia | exfalso; congruence].
+
 (* every path of the body ends in `continue` / the end of the body: the loop never returns or breaks *)
 Lemma outlier_checkAllNodes_step_flow flen n act p s tp :
   fst (outlier_checkAllNodes_step flen n act p s tp) = LContinue tt.
-Proof.
-  unfold outlier_checkAllNodes_step. cbv zeta.
-  destruct tp.
-  - match goal with |- context [if ?c then _ else _] => destruct c end; reflexivity.
-  - match goal with |- context [if ?c then _ else _] => destruct c end; reflexivity.
-Qed.
-
-Lemma half_code s : (bstate_code s =? 1) = is_half s.
-Proof. destruct s; reflexivity. Qed.
+Proof. unfold outlier_checkAllNodes_step. cbv zeta. leaf_cases. Qed.
 
 (* the regenerated iteration = the model's visit, with the quota computed from n = len(nodeBreaks) *)
 Lemma outlier_checkAllNodes_step_ok r now n c a :
@@ -57,10 +69,9 @@ Lemma outlier_checkAllNodes_step_ok r now n c a :
 Proof.
   unfold gen_visit, visit. destruct (alookup a (a_nodes c)) as [b|]; [|reflexivity].
   cbv zeta. unfold outlier_checkAllNodes_step, limit_of. cbv zeta.
-  destruct (fst (try_pass (br r) now b)) eqn:TP.
-  - rewrite half_code.
-    destruct (negb (active r) && is_half (st (snd (try_pass (br r) now b))))%bool; reflexivity.
-  - match goal with |- context [?x <? ?y] => destruct (x <? y) end; reflexivity.
+  destruct (fst (try_pass (br r) now b)); destruct (active r);
+    destruct (st (snd (try_pass (br r) now b)));
+    cbn [bstate_code is_half negb andb]; leaf_cases.
 Qed.
 
 (* the whole loop, for any iteration order of the map *)
